@@ -68,6 +68,12 @@ def build(tier, ctx):
             tasks.append({"name": nm, "defn": dsl.to_list(d), "k": 2,
                           "pres": ["canonical"], "mode": "c05", "seed": hs})
     # the same small definitions under realistic event names
+    for mp, names in pvcommon.joined_name_maps().items():
+        for nm, d in pvcommon.scope_defs(ctx["repo"], 4, with_corpus=False):
+            if dsl.constructs(d) & {"and", "or", "xor"}:
+                tasks.append({"name": nm, "defn": dsl.to_list(d), "k": 2,
+                              "pres": ["canonical"], "mode": "c05",
+                              "names": names, "names_map": mp})
     for mp, names in NAME_MAPS.items():
         for nm, d in pvcommon.scope_defs(ctx["repo"],
                                          4 if tier == "quick" else 5,
